@@ -255,7 +255,7 @@ pub fn run(ctx: &Ctx) -> Report {
     for n in 1..=maxn { perms.extend(permutations(n)); }
     let chunk = 8usize;
     let np = ((perms.len() + chunk - 1) / chunk) as u64;
-    let nrand = ctx.vol(2500, 120_000);
+    let nrand = ctx.vol(8000, 350_000);
     let stats = par_run(ctx, TAG, np + nrand, |u, rng, st| {
         if u < np {
             let lo = u as usize * chunk;
